@@ -3,6 +3,7 @@ Helper lemmas for C05: every Headers mutator keeps the stored values free of CR 
 -/
 import WzVerif.Model.Response
 import WzVerif.Lemmas.Views
+import WzVerif.Lemmas.Url
 namespace Wz.C05L
 open Wz Hdr
 
@@ -402,5 +403,61 @@ theorem wsgi_getlist_of (r : R) (lo co : Str) (k : Str)
   · rw [set_getlist_ne _ _ _ _ hcl, h3]
   · exact h3
 
+
+end Wz.C05L
+
+/-! ### `iri_to_uri` yields ASCII (same statement and proof as `Props.C15.iriToUri_ascii`; restated
+here on top of Lemmas/Url.lean so that C05 does not depend on another property's Props file) -/
+namespace Wz.C05L
+open Wz Wz.Url
+
+theorem iriToUri_ascii (p : Parts) (hs : ∀ c ∈ p.scheme, c.toNat < 128) (hh : ∀ c ∈ p.host, c.toNat < 128) :
+    let u := iriToUri p
+    (∀ c ∈ u.scheme, c.toNat < 128) ∧ (∀ c ∈ u.netloc, c.toNat < 128) ∧ (∀ c ∈ u.path, c.toNat < 128) ∧
+    (∀ c ∈ u.query, c.toNat < 128) ∧ (∀ c ∈ u.fragment, c.toNat < 128) := by
+  refine ⟨hs, ?_, (fun c hc => Url.quoteBytes_ascii _ _ c hc), (fun c hc => Url.quoteBytes_ascii _ _ c hc), (fun c hc => Url.quoteBytes_ascii _ _ c hc)⟩
+  have hdig : ∀ k : Nat, ∀ c ∈ (toString k).toList, c.toNat < 128 := by
+    intro k c hc
+    rw [Nat.toString_eq_repr, Nat.toList_repr] at hc
+    have := Char.isDigit_iff_toNat.mp (Nat.isDigit_of_mem_toDigits (by decide) (by decide) hc)
+    have h9 : '9'.toNat = 57 := by decide
+    omega
+  intro c hc
+  simp only [iriToUri, netloc] at hc
+  have hhost : ∀ c ∈ (if p.host.contains ':' = true then '[' :: p.host ++ [']'] else p.host), c.toNat < 128 := by
+    intro c hc
+    split at hc
+    · simp only [List.cons_append, List.mem_cons, List.mem_append, List.mem_nil_iff, or_false] at hc
+      rcases hc with rfl | hc | rfl
+      · decide
+      · exact hh c hc
+      · decide
+    · exact hh c hc
+  have hport : ∀ c ∈ (match p.port with
+      | some 0 => (if p.host.contains ':' = true then '[' :: p.host ++ [']'] else p.host)
+      | some k => (if p.host.contains ':' = true then '[' :: p.host ++ [']'] else p.host) ++ ':' :: (toString k).toList
+      | none => (if p.host.contains ':' = true then '[' :: p.host ++ [']'] else p.host)), c.toNat < 128 := by
+    intro c hc
+    split at hc
+    · exact hhost c hc
+    · rcases List.mem_append.mp hc with hc | hc
+      · exact hhost c hc
+      · rcases List.mem_cons.mp hc with rfl | hc
+        · decide
+        · exact hdig _ c hc
+    · exact hhost c hc
+  split at hc
+  · rcases List.mem_append.mp hc with hc | hc
+    · split at hc
+      · rcases List.mem_append.mp hc with hc | hc
+        · exact (fun c hc => Url.quoteBytes_ascii _ _ c hc) c hc
+        · rcases List.mem_cons.mp hc with rfl | hc
+          · decide
+          · exact (fun c hc => Url.quoteBytes_ascii _ _ c hc) c hc
+      · exact (fun c hc => Url.quoteBytes_ascii _ _ c hc) c hc
+    · rcases List.mem_cons.mp hc with rfl | hc
+      · decide
+      · exact hport c hc
+  · exact hport c hc
 
 end Wz.C05L
